@@ -41,7 +41,8 @@ def gen_cases(tier, rng):
         for k in KINDS:
             cases.append({"cls": "object:" + k, "kind": k, "seed": int(rng.integers(1 << 30)), "cost": 6 if "Aggregate" in k or k in ("AbsSpectrum", "AbsSpectrumContainer", "RelaxationTensor") else 2})
         for carrier in ("DFunction", "AbsSpectrum", "TwoDSpectrum", "Operator", "RateMatrix"):
-            cases.append({"cls": "data:" + carrier, "carrier": carrier, "seed": int(rng.integers(1 << 30)), "cost": 1})
+            for shift in (range(4) if carrier == "AbsSpectrum" else range(1)):
+                cases.append({"cls": "data:" + carrier, "carrier": carrier, "seed": int(rng.integers(1 << 30)), "unit_shift": shift, "cost": 1})
     return cases
 
 
@@ -358,13 +359,27 @@ def run_data(case, ctx, qr, rng, work, out):
                             src = qr.AbsSpectrum(axis=ax, data=y.real.copy())
                             dst = qr.AbsSpectrum(axis=ax2, data=numpy.zeros(N))
                         axd = numpy.array(ax.data)
+                        # an export/import pair made inside one and the same units context is a round trip as well
+                        unit = None if carrier == "DFunction" else [None, "1/cm", "eV", "THz"][(case.get("unit_shift", 0) + [".dat", ".txt", ".npy", ".npz", ".mat"].index(ext)) % 4]
+                        det["units_context"] = unit
                         with ctx.lib("save_data/load_data %s %s" % (carrier, ext)):
                             if carrier == "AbsSpectrum":
                                 # the spectrum's own save_data/load_data always carry the axis
                                 if not with_axis:
                                     continue
-                                src.save_data(fn)
-                                dst.load_data(fn)
+                                for rnd in range(2):
+                                    with (qr.energy_units(unit) if unit else contextlib.nullcontext()):
+                                        src.save_data(fn)
+                                        dst.load_data(fn)
+                                    if rnd == 0 and rng.random() < 0.5:
+                                        # second round: what was imported is exported again
+                                        src = dst
+                                        with qr.energy_units("1/cm"):
+                                            ax3 = qr.FrequencyAxis(0.0, N, 1.0)
+                                        dst = qr.AbsSpectrum(axis=ax3, data=numpy.zeros(N))
+                                        det["rounds"] = 2
+                                    else:
+                                        break
                             else:
                                 src.save_data(fn, with_axis=(src.axis if with_axis else None))
                                 dst.load_data(fn, with_axis=(dst.axis if with_axis else None))
@@ -378,7 +393,9 @@ def run_data(case, ctx, qr, rng, work, out):
                             ok = ga.shape == axd.shape
                             ctx.require("data-roundtrip", ok, dict(det, what="axis shape", got=list(ga.shape)))
                             if ok:
-                                ctx.check("data-roundtrip", float(numpy.max(numpy.abs(ga - axd))), (tol + 1e-15) * float(numpy.max(numpy.abs(axd))), dict(det, what="axis values"))
+                                ctx.check("data-roundtrip", float(numpy.max(numpy.abs(ga - axd))), (tol + 1e-15 + (4e-16 if unit else 0.0)) * float(numpy.max(numpy.abs(axd))) * det.get("rounds", 1),
+                                          dict(det, what="axis values"))
+                            ctx.sub(("export", carrier, ext, unit), nontrivial=True)
                     elif carrier == "TwoDSpectrum":
                         from quantarhei.spectroscopy.twod import TwoDSpectrum
                         if with_axis:
